@@ -572,7 +572,7 @@ func pipeRun(wire []byte, chunks []int, frameEnds []int, expectMsgs int) (sig, w
 			out <- item{desc: describe(msg)}
 		}
 	}()
-	const watchdog = 3 * time.Second
+	const watchdog = 8 * time.Second
 	finished := false
 	take := func() (it item, ok bool) {
 		select {
